@@ -122,7 +122,7 @@ fn node_mut<'a>(root: &'a mut RefNode, path: &[usize]) -> &'a mut RefNode {
     cur
 }
 
-pub const CLASSES: [&str; 15] = [
+pub const CLASSES: [&str; 16] = [
     "unknown-element",
     "foreign-element",
     "version-foreign-element",
@@ -134,6 +134,7 @@ pub const CLASSES: [&str; 15] = [
     "missing-required-attribute",
     "value-too-long",
     "pattern-non-member",
+    "value-too-long-and-pattern-non-member",
     "not-a-number",
     "malformed-entity",
     "data-after-root",
@@ -297,6 +298,21 @@ fn inject(rng: &mut Rng, doc: &mut RefDoc, version: AutosarVersion, class: &str,
                     continue;
                 }
                 n.items = vec![RefItem::Text("y".repeat(max + 1), 0, 0)];
+                return true;
+            }
+            "value-too-long-and-pattern-non-member" => {
+                // one value with two defects: both modes must name the same one first
+                let Some(CharacterDataSpec::Pattern { regex, max_length: Some(max), .. }) = t.chardata_spec() else { continue };
+                let Ok(dfa) = Dfa::new(regex) else { continue };
+                let text = format!("{}{}", rng.pick(&["0", "!", " x", "-"]), "y!".repeat(max / 2 + 1));
+                if dfa.matches(text.as_bytes()) {
+                    continue;
+                }
+                let n = node_mut(&mut doc.root, &path);
+                if n.items.iter().any(|i| matches!(i, RefItem::Elem(_))) {
+                    continue;
+                }
+                n.items = vec![RefItem::Text(text, 0, 0)];
                 return true;
             }
             "pattern-non-member" => {
